@@ -25,6 +25,10 @@ func (d *Delivery) Acked() bool  { return vs.PeekClosed(d.Msg.Acked()) }
 func (d *Delivery) Nacked() bool { return vs.PeekClosed(d.Msg.Nacked()) }
 func (d *Delivery) Settled() bool { return d.Acked() || d.Nacked() }
 
+// (No locks inside the scripted endpoints: under the controlled scheduler one goroutine runs at a
+// time, and fewer visible operations keep the explored state space small. They are not meant for
+// free-running use.)
+//
 // ScriptSub is a message.Subscriber whose subscriptions emit a fixed list of messages per topic.
 // One message at a time: the next one is emitted after the previous copy was settled; a Nacked copy is
 // redelivered as a fresh copy up to Redeliver times. It honours the Subscribe context and Close.
@@ -53,8 +57,6 @@ func NewScriptSub(name string, script map[string][]*message.Message) *ScriptSub 
 func (s *ScriptSub) String() string { return "hx.ScriptSub(" + s.Name + ")" }
 
 func (s *ScriptSub) Subscribe(ctx context.Context, topic string) (<-chan *message.Message, error) {
-	s.mu.Lock()
-	defer s.mu.Unlock()
 	s.SubscribeCalls++
 	if s.closed {
 		return nil, errors.New("script subscriber closed")
@@ -88,9 +90,7 @@ func (s *ScriptSub) Subscribe(ctx context.Context, topic string) (<-chan *messag
 				case <-ctx.Done():
 					return
 				}
-				s.mu.Lock()
 				s.Deliveries = append(s.Deliveries, d)
-				s.mu.Unlock()
 				if s.InFlight {
 					break
 				}
@@ -118,15 +118,13 @@ func (s *ScriptSub) Subscribe(ctx context.Context, topic string) (<-chan *messag
 }
 
 func (s *ScriptSub) Close() error {
-	s.mu.Lock()
 	s.CloseCalls++
 	if s.closed {
-		s.mu.Unlock()
+		s.wg.Wait()
 		return nil
 	}
 	s.closed = true
 	close(s.closing)
-	s.mu.Unlock()
 	s.wg.Wait()
 	return nil
 }
@@ -140,8 +138,6 @@ func (s *ScriptSub) Open() {
 
 // Snapshot returns the deliveries so far (harness side, at quiescence).
 func (s *ScriptSub) Snapshot() []*Delivery {
-	s.mu.Lock()
-	defer s.mu.Unlock()
 	return append([]*Delivery{}, s.Deliveries...)
 }
 
@@ -182,11 +178,9 @@ func NewScriptPub(name string) *ScriptPub { return &ScriptPub{Name: name} }
 func (p *ScriptPub) String() string { return "hx.ScriptPub(" + p.Name + ")" }
 
 func (p *ScriptPub) Publish(topic string, msgs ...*message.Message) error {
-	p.mu.Lock()
 	n := len(p.Calls)
 	c := &PubCall{Topic: topic, Msgs: append([]*message.Message{}, msgs...)}
 	p.Calls = append(p.Calls, c)
-	p.mu.Unlock()
 	if p.Outcome != nil {
 		c.Outcome = p.Outcome(n, topic, msgs)
 	}
@@ -206,15 +200,11 @@ func (p *ScriptPub) Publish(topic string, msgs ...*message.Message) error {
 }
 
 func (p *ScriptPub) Close() error {
-	p.mu.Lock()
 	p.CloseCalls++
-	p.mu.Unlock()
 	return nil
 }
 
 func (p *ScriptPub) Snapshot() []*PubCall {
-	p.mu.Lock()
-	defer p.mu.Unlock()
 	return append([]*PubCall{}, p.Calls...)
 }
 
